@@ -28,7 +28,7 @@ CLAIMED = {
         note="caller contract as documented (fed bytes fit the input buffer; dest only with an empty stream buffer); sizes < 2^62; progress for dest = Some c is stated for dest = None only (a full caller buffer legitimately stops the call)."),
     "C08": dict(
         text="Proof on the connection model (Async/Conn.v; gated client segments = a peer that withholds further records until it has seen the "
-             "replies it waits for; PBlock = Pending without wake-up), partial: C08_only_waits_for_client - the task never panics or spins and is "
+             "replies it waits for; PBlock = Pending without wake-up), C08_only_waits_for_client - the task never panics or spins and is "
              "suspended without a pending wake-up only in a transport read that a gated client does not satisfy; at EVERY such suspension point the "
              "accounting is proved: inside a handler read (C08_poll_input_block / C08_await_input_deadlock) the parser's output buffer is empty, "
              "everything produced is in the transport's log, NOTHING is owed for bytes already received (R .. [] = []), the replies still owed "
@@ -40,12 +40,16 @@ CLAIMED = {
              "waiting has put into the log EXACTLY the replies the specification owes for the bytes received during it - and "
              "C08_peer_read_never_deadlocks: if every gate of the client asks for no more than what is already in the log plus the replies "
              "owed for the bytes it sent before, a handler read NEVER ends in the wait-for cycle, for every readiness pattern; "
-             "C08_parse_request_block_counts is the counted form between requests. The composition over a whole connection (several "
-             "requests, handler output in between) is decided end to end by the correspondence check: closed-loop gated clients with queries before / between / inside "
+             "C08_parse_request_block_counts is the counted form between requests; and for the WHOLE connection C08_peer_never_deadlocks: on a "
+             "fault-free transport, for every buffer size, every list of well-formed handler scripts (reading, buffered reading, switching, "
+             "writing, early return, failing), every readiness pattern and every client whose segments are whole records and whose gates "
+             "ask only for management replies owed for records of earlier segments (pipelining allowed), the connection task returns - the "
+             "two sides never wait on each other (global counting invariant over both parsers, handler output, partial flushes, close). "
+             "Clients that additionally wait for EndRequest records (the one-outstanding client of C07) are covered by the correspondence check: closed-loop gated clients with queries before / between / inside "
              "requests and in the same read as a request's end, on an executor that re-polls only on wake. Defects F1 and F2 found here are "
              "repaired in /repo (1a75639, fd29a7b); their replays are in corpus/C08 and run first.",
         design="6/C08, 13.3", technique="Coq proof (totality + reply accounting at every suspension point of the connection model) + differential execution with closed-loop gated clients on a wake-only executor",
-        note="no-deadlock for the (P)-peer is proved per handler read and counted per parse_request; its composition over a whole connection (global record accounting of the log across requests) is by correspondence; executor/waker protocol modelled by contract."),
+        note="the whole-connection theorem is for peers that gate on management replies (ge = 0); gating on EndRequest records as well is by correspondence; the property's 'once the running handler reads input or returns' is reflected by handlers always progressing in the model; executor/waker protocol modelled by contract."),
     "C09": dict(
         text="Proof on the connection model: C09_poll_input / C09_await_input - for ONE poll or awaited read with any caller buffer (read into c bytes, "
              "fill_buf), any transport read/write behaviour and pending parser output: with dl the bytes handed over, K(before)(remaining) = dl "
